@@ -33,11 +33,11 @@ Lemma step_some ws c t last r sc a t1 last' r' sc' :
   iter_step ws c t last r sc = (Some a, t1, last', r', sc') ->
   gen_at ws r t <> last /\ a_t a = t /\ a_gen a = gen_at ws r t /\ a_end a = t1
   /\ t <= t1 /\ t1 <= c /\ t1 <= t + upload_timeout
-  /\ last' = (if a_ok a then a_gen a else last) /\ r <= r'
+  /\ last' = (if a_ok a then a_gen a else last) /\ r <= r' /\ r' = r + a_race a
   /\ (a_ok a = true -> t1 = t + u_dur (hd default_upl sc) /\ u_ok (hd default_upl sc) = true).
 Proof.
   intros Htc. unfold iter_step. destruct (gen_at ws r t =? last) eqn:E; [discriminate|].
-  apply N.eqb_neq in E. intros H. injection H as <- <- <- <- <-. cbn [a_t a_gen a_ok a_end].
+  apply N.eqb_neq in E. intros H. injection H as <- <- <- <- <-. cbn [a_t a_gen a_ok a_end a_race].
   set (e := hd default_upl sc). unfold upload_timeout.
   destruct (c <? t + N.min (u_dur e) 300000) eqn:Ea.
   - apply N.ltb_lt in Ea. repeat split; auto; try lia.
@@ -296,8 +296,8 @@ Proof.
   destruct (loop_head _ _ _ _ _ _ _ _ _ _ H) as (Ht & Hg & Hn).
   destruct (i_up it) as [a|] eqn:E.
   - exists it, rest, a. auto.
-  - exfalso. assert (G : gen_at (writes tl) 0 0 = 0) by (apply Hn; reflexivity).
-    pose proof (gen_at_pos (writes tl) 0 0). lia.
+  - exfalso. assert (G : gen_at (ok_writes tl) 0 0 = 0) by (apply Hn; reflexivity).
+    pose proof (gen_at_pos (ok_writes tl) 0 0). lia.
 Qed.
 
 Theorem run_change_driven tl its x : backup_run tl = Some (its, x) ->
@@ -375,13 +375,13 @@ Proof.
   destruct (run_change_driven _ _ _ H pre it post E) as [_ Hs]. destruct (Hs a Hu) as (Hg & Ht & _).
   repeat split; auto.
   unfold backup_run in H.
-  assert (G : forall f t last r sc its x, loop f (writes tl) (cancel tl) t last r sc = Some (its, x) ->
+  assert (G : forall f t last r sc its x, loop f (ok_writes tl) (cancel tl) t last r sc = Some (its, x) ->
               forall it, In it its -> 1 <= i_gen it).
   { clear. induction f as [|f IH]; intros t last r sc its x H it Hin; [discriminate|]. cbn [loop] in H.
-    destruct (iter_step (writes tl) (cancel tl) t last r sc) as [[[[up t1] last'] r'] sc'].
+    destruct (iter_step (ok_writes tl) (cancel tl) t last r sc) as [[[[up t1] last'] r'] sc'].
     destruct (cancel tl <=? t1 + period).
     - injection H as <- _. destruct Hin as [<-|[]]. cbn. apply gen_at_pos.
-    - destruct (loop f (writes tl) (cancel tl) (t1 + period) last' r' sc') as [[its' x']|] eqn:E; [|discriminate].
+    - destruct (loop f (ok_writes tl) (cancel tl) (t1 + period) last' r' sc') as [[its' x']|] eqn:E; [|discriminate].
       injection H as <- _. destruct Hin as [<-|Hin]; [cbn; apply gen_at_pos|eauto]. }
   rewrite Hg. eapply G; eauto. subst its. apply in_or_app. right. left. reflexivity.
 Qed.
@@ -410,4 +410,98 @@ Proof.
     destruct pre as [|p pre]; cbn in E.
     + inversion E; subst. cbn. apply negb_true_iff, N.eqb_neq in H1. exact H1.
     + injection E as <- E. cbn [fold_left]. eapply IH; eauto.
+Qed.
+
+(* ---- failed write attempts and reads: they are not in [ok_writes], so the run does not
+   depend on them at all ---- *)
+Lemma ok_writes_ignores tl extra :
+  (forall e, In e extra -> snd e = false) ->
+  ok_writes {| writes := writes tl ++ extra; script := script tl; cancel := cancel tl |} = ok_writes tl.
+Proof.
+  intros H. unfold ok_writes. cbn [writes]. rewrite filter_app, map_app.
+  assert (E : filter snd extra = []).
+  { induction extra as [|e extra IH]; [reflexivity|]. cbn [filter].
+    rewrite (H e (or_introl eq_refl)). apply IH. intros e' He'. apply H. right. exact He'. }
+  rewrite E. cbn. apply app_nil_r.
+Qed.
+
+Theorem run_ignores_unchanged tl extra :
+  (forall e, In e extra -> snd e = false) ->
+  backup_run {| writes := writes tl ++ extra; script := script tl; cancel := cancel tl |} = backup_run tl.
+Proof. intros H. unfold backup_run. rewrite (ok_writes_ignores tl extra H). reflexivity. Qed.
+
+(* ---- how many uploads: each acknowledged upload covers a generation strictly above the
+   previous acknowledged one, and generations only come from successful writes ---- *)
+Lemma count_le_len t ws : count_le t ws <= N.of_nat (length ws).
+Proof.
+  induction ws as [|w ws IH]; cbn [count_le length]; [lia|].
+  rewrite Nat2N.inj_succ. destruct (w <=? t); lia.
+Qed.
+
+Lemma attempts_cons it its :
+  attempts (it :: its) = match i_up it with Some a => a :: attempts its | None => attempts its end.
+Proof. unfold attempts. cbn [flat_map]. destruct (i_up it); reflexivity. Qed.
+
+Lemma loop_acked_bound f ws c : forall t last r sc its x,
+  okstate ws c t last r -> loop f ws c t last r sc = Some (its, x) ->
+  n_acked (attempts its) + last <= 1 + r + n_races (attempts its) + N.of_nat (length ws).
+Proof.
+  induction f as [|f IH]; intros t last r sc its x Hs H; [discriminate|].
+  destruct (loop_step _ _ _ _ _ _ _ _ _ Hs H) as (up & t1 & last' & r' & sc' & Es & _ & _ & _ & _ & _ & D).
+  destruct Hs as [Htc Hl].
+  pose proof (count_le_len t ws) as Hc.
+  assert (Hg : gen_at ws r t <= 1 + r + N.of_nat (length ws)) by (unfold gen_at; lia).
+  assert (Cur : forall rest, 
+     n_acked (attempts rest) + last' <= 1 + r' + n_races (attempts rest) + N.of_nat (length ws) ->
+     n_acked (attempts ({| i_t := t; i_gen := gen_at ws r t; i_up := up |} :: rest)) + last
+       <= 1 + r + n_races (attempts ({| i_t := t; i_gen := gen_at ws r t; i_up := up |} :: rest)) + N.of_nat (length ws)).
+  { intros rest Hrest. rewrite attempts_cons. cbn [i_up]. destruct up as [a|].
+    - destruct (step_some _ _ _ _ _ _ _ _ _ _ _ Htc Es) as (Hne & _ & Hga & _ & _ & _ & _ & Hl' & _ & Hr' & _).
+      cbn [n_acked n_races]. destruct (a_ok a); lia.
+    - destruct (step_none _ _ _ _ _ _ _ _ _ _ Es) as (_ & _ & -> & -> & _). exact Hrest. }
+  destruct D as [[_ ->]|(_ & Hs' & its' & Hrec & ->)].
+  - apply Cur. change (attempts []) with (@nil attempt). cbn [n_acked n_races].
+    destruct up as [a|].
+    + destruct (step_some _ _ _ _ _ _ _ _ _ _ _ Htc Es) as (Hne & _ & Hga & _ & _ & _ & _ & Hl' & _ & Hr' & _).
+      destruct (a_ok a) eqn:Eo; rewrite ?Eo in *; lia.
+    + destruct (step_none _ _ _ _ _ _ _ _ _ _ Es) as (_ & _ & -> & -> & _). lia.
+  - apply Cur. apply (IH _ _ _ _ _ _ Hs' Hrec).
+Qed.
+
+Lemma acked_failed_len l : N.of_nat (length l) = n_acked l + n_failed l.
+Proof.
+  induction l as [|a l IH]; [reflexivity|]. cbn [length n_acked n_failed].
+  rewrite Nat2N.inj_succ. destruct (a_ok a); lia.
+Qed.
+
+(* the number of uploads after the first is at most the number of SUCCESSFUL database writes
+   (by clients, or on the store's side during an upload) plus the number of failed uploads;
+   failed write attempts and reads do not count *)
+Theorem run_upload_count tl its x : backup_run tl = Some (its, x) ->
+  N.of_nat (length (attempts its))
+  <= 1 + N.of_nat (length (ok_writes tl)) + n_races (attempts its) + n_failed (attempts its).
+Proof.
+  intros H. pose proof (loop_acked_bound _ _ _ _ _ _ _ _ _ (init_ok _ _) H).
+  rewrite acked_failed_len. lia.
+Qed.
+
+(* ---- the byte-identity monitor ---- *)
+Lemma mon_bytes_spec l : forall last, mon_bytes last l = true ->
+  forall pre b1 mid b2 post, l = pre ++ (true, b1) :: mid ++ (true, b2) :: post ->
+  (forall e, In e mid -> fst e = false) -> b1 <> b2.
+Proof.
+  induction l as [|[ok b] l IH]; intros last H pre b1 mid b2 post E Hm.
+  - destruct pre; discriminate.
+  - cbn [mon_bytes] in H. destruct pre as [|p pre]; cbn in E.
+    + injection E as -> -> E. apply andb_true_iff in H. destruct H as [_ H].
+      (* skip the unacknowledged ones in between *)
+      clear IH. revert l H E. induction mid as [|[ok' b'] mid IHm]; intros l H E; cbn in E; subst l.
+      * cbn [mon_bytes] in H. apply andb_true_iff in H. destruct H as [H _].
+        apply negb_true_iff, N.eqb_neq in H. congruence.
+      * assert (ok' = false) by (apply (Hm (ok', b')); left; reflexivity). subst ok'.
+        cbn [mon_bytes] in H. eapply IHm; [|exact H|reflexivity].
+        intros e He. apply Hm. right. exact He.
+    + injection E as _ E. destruct ok.
+      * apply andb_true_iff in H. destruct H as [_ H]. eapply IH; eauto.
+      * eapply IH; eauto.
 Qed.
